@@ -99,6 +99,39 @@ func (g *gen) security() {
 			return true
 		})
 	}
+	// F-keywords: the engine's reserved words plus the future keywords the preamble imports
+	keywords := append([]string{}, opaast.Keywords[:]...)
+	if gf := g.parse("internal/generator/generator.go"); gf != nil {
+		ast.Inspect(gf, func(n ast.Node) bool {
+			if vs, ok := n.(*ast.ValueSpec); ok && len(vs.Names) == 1 && vs.Names[0].Name == "preambleRaw" && len(vs.Values) == 1 {
+				for _, l := range strings.Split(strLit(vs.Values[0]), "\n") {
+					l = strings.TrimSpace(l)
+					if strings.HasPrefix(l, "import future.keywords.") {
+						keywords = append(keywords, strings.TrimPrefix(l, "import future.keywords."))
+					}
+				}
+			}
+			return true
+		})
+	}
+	sort.Strings(keywords)
+	// F-vars: the letters of NewVarGenerator and the format strings of the generated names
+	letters, varFormats := []string{}, []string{}
+	if vf := g.parse("internal/parser/profile/vargenerator.go"); vf != nil {
+		if fd := g.funcDecl(vf, "NewVarGenerator"); fd != nil {
+			letters = stringLits(fd)
+		}
+		for _, fn := range []string{"Genvar", "GenExpressionVar"} {
+			if fd := g.funcDecl(vf, fn); fd != nil {
+				varFormats = append(varFormats, stringLits(fd)...)
+			}
+		}
+	}
+	g.write("NameFacts.v",
+		"Definition extracted_keywords : list string := "+CoqStringList(keywords)+".\n"+
+			"Definition extracted_letters : list string := "+CoqStringList(letters)+".\n"+
+			"Definition extracted_var_formats : list string := "+CoqStringList(varFormats)+".\n")
+	g.facts["keywords"] = keywords
 	g.facts["deny"] = deny
 	g.facts["builtins"] = builtins
 	g.write("SecurityFacts.v",
